@@ -19,12 +19,13 @@ pub struct Sizes {
     pub generated: usize,
     pub mutated: usize,
     pub layout: usize,
+    pub literal: usize,
 }
 
 pub fn sizes(tier: &str) -> Sizes {
     match tier {
-        "thorough" => Sizes { generated: 600, mutated: 400, layout: 400 },
-        _ => Sizes { generated: 60, mutated: 40, layout: 40 },
+        "thorough" => Sizes { generated: 600, mutated: 400, layout: 400, literal: 400 },
+        _ => Sizes { generated: 60, mutated: 40, layout: 40, literal: 40 },
     }
 }
 
